@@ -264,6 +264,10 @@ package fit
 //@ spec pure pf(m MesgNum, n byte) *field := ite(int(m) < len(_fields), _fields[m][n], nil)
 //@ pred pure pfound(m MesgNum, n byte) := pf(m, n) != nil
 
+//@ spec pure fkind(t types.Fit) int := int((uint16(t)>>6)&7)
+//@ pred pure farray(t types.Fit) := uint16(t)&0x20 != 0
+//@ spec pure fbase(t types.Fit) types.Base := types.DecompSpec(byte(t))
+//@ spec pure bsize(b types.Base) int := types.SizeSpec(byte(b)&0x1F)
 //@@ Conditions under which parseFitField meets the preconditions of reflect and
 //@@ encoding/binary for a scalar native field (class/width from the struct type).
 //@ pred pure scalarOK(bt types.Base, size byte, cls int, wid int) :=
@@ -279,31 +283,37 @@ package fit
 //@ pred pure arrayOK(bt types.Base, size byte, cls int, ecls int, ewid int, ttag int) :=
 //@  | cls == 5 &&
 //@  | (bt == types.BaseByte ==> ecls == 1 && ewid == 8) &&
-//@  | (bt != types.BaseByte && bt != types.BaseString ==> int(size)%bt.Size() == 0) &&
+//@  | (bt != types.BaseByte && bt != types.BaseString ==> int(size)%bsize(bt) == 0) &&
 //@  | ((bt == types.BaseEnum || bt == types.BaseUint8 || bt == types.BaseUint8z || bt == types.BaseUint16 || bt == types.BaseUint16z || bt == types.BaseUint32 || bt == types.BaseUint32z) ==> ecls == 1) &&
 //@  | ((bt == types.BaseSint8 || bt == types.BaseSint16 || bt == types.BaseSint32) ==> ecls == 2) &&
 //@  | ((bt == types.BaseFloat32 || bt == types.BaseFloat64) ==> ecls == 3) &&
 //@  | (bt == types.BaseString && size != 0 ==> ttag == typetag[[]string]())
 //@ pred pure fieldOK(m MesgNum, fd fieldDef, p *field) :=
-//@  | 0 <= p.sindex && p.sindex < rvNumField(int(m)) && p.t.Kind() <= 4 &&
-//@  | (p.t.Kind() == types.NativeFit && !p.t.Array() ==> scalarOK(fd.btype, fd.size, rvClass(int(m), p.sindex), rvWidth(int(m), p.sindex))) &&
-//@  | (p.t.Kind() == types.NativeFit && p.t.Array() ==> arrayOK(fd.btype, fd.size, rvClass(int(m), p.sindex), rvEClass(int(m), p.sindex), rvEWidth(int(m), p.sindex), rvTypeTag(int(m), p.sindex))) &&
-//@  | (p.t.Kind() != types.NativeFit ==> !p.t.Array() && fd.btype != types.BaseString && p.t.BaseType() != types.BaseString && p.t.BaseType().Size() == 4 && 1 <= fd.size && fd.size <= 4) &&
-//@  | ((p.t.Kind() == types.TimeUTC || p.t.Kind() == types.TimeLocal) ==> rvTypeTag(int(m), p.sindex) == typetag[time.Time]()) &&
-//@  | (p.t.Kind() == types.Lat ==> rvTypeTag(int(m), p.sindex) == typetag[Latitude]()) &&
-//@  | (p.t.Kind() == types.Lng ==> rvTypeTag(int(m), p.sindex) == typetag[Longitude]())
+//@  | 0 <= p.sindex && p.sindex < rvNumField(int(m)) && fkind(p.t) <= 4 && byte(p.t)&0x1F <= 16 &&
+//@  | (fkind(p.t) == 0 && !farray(p.t) ==> scalarOK(fd.btype, fd.size, rvClass(int(m), p.sindex), rvWidth(int(m), p.sindex))) &&
+//@  | (fkind(p.t) == 0 && farray(p.t) ==> arrayOK(fd.btype, fd.size, rvClass(int(m), p.sindex), rvEClass(int(m), p.sindex), rvEWidth(int(m), p.sindex), rvTypeTag(int(m), p.sindex))) &&
+//@  | (fkind(p.t) != 0 ==> !farray(p.t) && fd.btype != types.BaseString && fbase(p.t) != types.BaseString && bsize(fbase(p.t)) == 4 && 1 <= fd.size && fd.size <= 4) &&
+//@  | ((fkind(p.t) == 1 || fkind(p.t) == 2) ==> rvTypeTag(int(m), p.sindex) == typetag[time.Time]()) &&
+//@  | (fkind(p.t) == 3 ==> rvTypeTag(int(m), p.sindex) == typetag[Latitude]()) &&
+//@  | (fkind(p.t) == 4 ==> rvTypeTag(int(m), p.sindex) == typetag[Longitude]())
 //@@ compat: the weakest condition on a (message, field definition) pair under which the data parser is safe
-//@ pred pure opaque compat(m MesgNum, fd fieldDef) := fd.btype.Known() && (fd.btype != types.BaseString ==> int(fd.size) >= fd.btype.Size()) && (knownMsgNums[m] && pfound(m, fd.num) ==> fieldOK(m, fd, pf(m, fd.num)))
+//@ pred pure opaque compat(m MesgNum, fd fieldDef) := types.KnownIdx(fd.btype) && (fd.btype != types.BaseString ==> int(fd.size) >= bsize(fd.btype)) && (pfound(m, fd.num) ==> knownMsgNums[m] && fieldOK(m, fd, pf(m, fd.num)))
 
 //@ func (d *decoder) validateFieldDef(gmsgnum MesgNum, dfield fieldDef) (err error)
 //@   props C01
 //@   split profile gmsgnum dfield.num
-//@   reveal compat
+//@   reveal compat, tables
 //@   ensures [compat] err == nil ==> compat(gmsgnum, dfield)
 //@   assigns nothing
 
+//@ lemma known_bound(m MesgNum)
+//@   props C01 C15
+//@   reveal tables
+//@   concl knownMsgNums[m] ==> m < 0xFF00 && int(m) < len(newMesgFuncs) && int(m) < len(_fields)
+
 //@ lemma fields_rows_known(m MesgNum)
 //@   props C01 C15
+//@   reveal tables
 //@   concl forall n byte :: pfound(m, n) ==> knownMsgNums[m]
 
 //@@ ------------------------------------------------------------------ definition messages
@@ -403,7 +413,7 @@ package fit
 
 //@ func (d *decoder) parseFitFieldArray(dm *defmsg, dfield fieldDef, fieldv reflect.Value) (err error)
 //@   props C01
-//@   requires archOK(dm) && rvmt(fieldv) < 0xFFF0 && dfield.btype.Known()
+//@   requires archOK(dm) && rvmt(fieldv) < 0xFFF0 && types.KnownIdx(dfield.btype)
 //@   locals j int, k int
 //@   requires [array] arrayOK(dfield.btype, dfield.size, rvcls(fieldv), rvecls(fieldv), rvewid(fieldv), rvttag(fieldv))
 //@   assigns rvstate(fieldv)
@@ -411,17 +421,48 @@ package fit
 //@   loop 0 decreases int(dfield.size) - j
 //@   loop 1 invariant [range] 0 <= j && j <= int(dfield.size)
 //@   loop 1 decreases int(dfield.size) - j
-//@   loop 2 invariant [range] 0 <= k && k <= 255 && 0 <= j && j <= int(dfield.size) && j == k*dfield.btype.Size()
+//@   loop 2 invariant [range] 0 <= k && k <= 255 && 0 <= j && j <= int(dfield.size) && j == k*bsize(dfield.btype)
 //@   loop 2 decreases int(dfield.size) - j
-//@   loop 3 invariant [range] 0 <= k && k <= 255 && 0 <= j && j <= int(dfield.size) && j == k*dfield.btype.Size()
+//@   loop 3 invariant [range] 0 <= k && k <= 255 && 0 <= j && j <= int(dfield.size) && j == k*bsize(dfield.btype)
 //@   loop 3 decreases int(dfield.size) - j
-//@   loop 4 invariant [range] 0 <= k && k <= 255 && 0 <= j && j <= int(dfield.size) && j == k*dfield.btype.Size()
+//@   loop 4 invariant [range] 0 <= k && k <= 255 && 0 <= j && j <= int(dfield.size) && j == k*bsize(dfield.btype)
 //@   loop 4 decreases int(dfield.size) - j
-//@   loop 5 invariant [range] 0 <= k && k <= 255 && 0 <= j && j <= int(dfield.size) && j == k*dfield.btype.Size()
+//@   loop 5 invariant [range] 0 <= k && k <= 255 && 0 <= j && j <= int(dfield.size) && j == k*bsize(dfield.btype)
 //@   loop 5 decreases int(dfield.size) - j
-//@   loop 6 invariant [range] 0 <= k && k <= 255 && 0 <= j && j <= int(dfield.size) && j == k*dfield.btype.Size()
+//@   loop 6 invariant [range] 0 <= k && k <= 255 && 0 <= j && j <= int(dfield.size) && j == k*bsize(dfield.btype)
 //@   loop 6 decreases int(dfield.size) - j
-//@   loop 7 invariant [range] 0 <= k && k <= 255 && 0 <= j && j <= int(dfield.size) && j == k*dfield.btype.Size()
+//@   loop 7 invariant [range] 0 <= k && k <= 255 && 0 <= j && j <= int(dfield.size) && j == k*bsize(dfield.btype)
 //@   loop 7 decreases int(dfield.size) - j
 //@   loop 8 invariant [range] 0 <= j && j <= 255 && 0 <= k && k <= 255 && j+k < int(dfield.size)
 //@   loop 8 decreases int(dfield.size) - (j+k)
+
+//@ pred dec_inv(d *decoder) := inv_bytes(d) && inv_io(d) && inv_unknown(d)
+//@ pred dec_step(d *decoder, n0 int, limit0 int, fp0 int, pos0 int) := d.bytes.n >= n0 && d.bytes.limit == limit0 && framepos(d) == fp0 && pos(d.r) >= pos0
+
+//@ func (d *decoder) parseDataFields(dm *defmsg, knownMsg bool, msgv reflect.Value) (r reflect.Value, err error)
+//@   props C01 C10 C11
+//@   locals rangeindex int, j int, dsize int, padding int
+//@   reveal compat
+//@   requires dec_inv(d) && wf_defmsg(dm)
+//@   requires [known] knownMsg == knownMsgNums[dm.globalMsgNum]
+//@   requires [msgv] knownMsg ==> rvismsg(msgv, int(dm.globalMsgNum)) && dm.globalMsgNum < 0xFF00
+//@   ensures [inv] dec_inv(d)
+//@   ensures [step] dec_step(d, old(d.bytes.n), old(d.bytes.limit), old(framepos(d)), old(pos(d.r)))
+//@   ensures [inv-time] old(inv_time(d)) ==> inv_time(d)
+//@   ensures [result] err == nil ==> same(r, msgv)
+//@   assigns d.bytes.i, d.bytes.j, d.bytes.n, d.bytes.buf[..], d.tmp[..], pos(d.r), dyncrc16.GhostSum(d.crc)
+//@   assigns d.timestamp, d.lastTimeOffset, rvstate(msgv), d.unknownFields[..]
+//@   loop 0 invariant [inv] dec_inv(d) && dec_step(d, old(d.bytes.n), old(d.bytes.limit), old(framepos(d)), old(pos(d.r))) && (old(inv_time(d)) ==> inv_time(d))
+//@   loop 0 invariant [range] -1 <= rangeindex && rangeindex < len(dm.fieldDefs)
+//@   loop 0 assigns rvstate(msgv), d.unknownFields[..], d.tmp[..], d.bytes.buf[..]
+//@   loop 0 decreases len(dm.fieldDefs) - rangeindex
+//@   loop 1 invariant [range] 0 <= j && j <= 255
+//@   loop 1 decreases 255 - j
+//@   loop 2 invariant [range] -1 <= j && j <= 254 && 0 <= padding && padding <= 4
+//@   loop 2 decreases j + 1
+//@   loop 3 invariant [range] 0 <= j && j <= padding && padding <= 4
+//@   loop 3 decreases padding - j
+//@   loop 4 invariant [inv] dec_inv(d) && dec_step(d, old(d.bytes.n), old(d.bytes.limit), old(framepos(d)), old(pos(d.r))) && (old(inv_time(d)) ==> inv_time(d))
+//@   loop 4 invariant [range] -1 <= rangeindex && rangeindex < len(dm.devDataFieldDescs)
+//@   loop 4 assigns d.tmp[..], d.bytes.buf[..]
+//@   loop 4 decreases len(dm.devDataFieldDescs) - rangeindex
